@@ -12,6 +12,18 @@ pub fn kani_event_log() -> EventLog {
     }
 }
 
+/// Same, with a caller-chosen `path` (used to carry a context pointer to the EventLog::append stub).
+pub fn kani_event_log_at(path: PathBuf) -> EventLog {
+    use std::os::fd::FromRawFd;
+    EventLog {
+        path,
+        writer: Mutex::new(BufWriter::with_capacity(0, unsafe { File::from_raw_fd(3) })),
+    }
+}
+pub fn kani_event_log_path(log: &EventLog) -> &Path {
+    &log.path
+}
+
 #[kani::proof]
 fn c00_setup_probe() {
     let x: u8 = kani::any();
